@@ -792,6 +792,12 @@ func (m *Manager) configureTasks(envId uid.ID, tasks Tasks) error {
 		if respError != nil {
 			errText := respError.Error()
 			if len(strings.TrimSpace(errText)) != 0 {
+				// a single commanded task is classified by its critical trait, like each task of a multi-response
+				if len(tasks) == 1 && !tasks[0].GetTraits().Critical && !(tasks[0].parent != nil && tasks[0].parent.GetTaskTraits().Critical) {
+					log.WithField("partition", envId).
+						Warnf("CONFIGURE could not complete for non-critical tasks, errors: %s", errText)
+					return nil
+				}
 				return errors.New(response.Err().Error())
 			}
 			// FIXME: improve error handling ↑
@@ -872,6 +878,12 @@ func (m *Manager) transitionTasks(envId uid.ID, tasks Tasks, src string, event s
 		if respError != nil {
 			errText := respError.Error()
 			if len(strings.TrimSpace(errText)) != 0 {
+				// a single commanded task is classified by its critical trait, like each task of a multi-response
+				if len(tasks) == 1 && !tasks[0].GetTraits().Critical && !(tasks[0].parent != nil && tasks[0].parent.GetTaskTraits().Critical) {
+					log.WithField("partition", envId).
+						Warnf("%s could not complete for non-critical tasks, errors: %s", event, errText)
+					return nil
+				}
 				return errors.New(response.Err().Error())
 			}
 			// FIXME: improve error handling ↑
